@@ -4,6 +4,7 @@ import (
 	"encoding/json"
 	"fmt"
 	"math/big"
+	"reflect"
 
 	abci "github.com/cometbft/cometbft/abci/types"
 	sdk "github.com/cosmos/cosmos-sdk/types"
@@ -354,6 +355,12 @@ func fromOf(m sdk.Msg) string {
 	type hasFrom interface{ GetFrom() string }
 	if f, ok := m.(hasFrom); ok {
 		return f.GetFrom()
+	}
+	v := reflect.ValueOf(m)
+	if v.Kind() == reflect.Ptr && !v.IsNil() {
+		if f := v.Elem().FieldByName("From"); f.IsValid() && f.Kind() == reflect.String {
+			return f.String()
+		}
 	}
 	return ""
 }
